@@ -127,6 +127,69 @@ theorem policy_default (r : Row) (he : Eligible r) (h : podVerdict r = none)
     (hn : r.never = false) (ha : r.always = false) : injectImpl r = decide (r.policy = .enabled) := by
   rw [inject_table_eq_spec]; exact spec_policy_default r he h hn ha
 
+/-! ## The statement read literally, and where the code deviates from it
+
+The property text orders the inputs "host networking and ignored namespaces (never), the pod's inject label, else
+its inject annotation, else never/always-inject selectors, else the namespace policy".  Read literally: a label that
+gives no verdict passes the question on to the annotation, and a pod that says "true" is injected whatever the
+policy string is.  The real function (and therefore `specDecision`) deviates from that reading in exactly two places;
+the deviation is a theorem about the generated table, not a comment. -/
+
+/-- The verdict of the pod under the literal reading: label, *else* annotation. -/
+def literalVerdict (r : Row) : Option Bool :=
+  match r.label with
+  | .tru => some true
+  | .fls => some false
+  | _ =>
+    match r.ann with
+    | .tru => some true
+    | .fls => some false
+    | _ => none
+
+/-- The cascade under the literal reading (an illegal policy counts as "not enabled" at the last step only). -/
+def literalDecision (r : Row) : Bool :=
+  if r.hostNet then false
+  else if r.nsIgnored then false
+  else match literalVerdict r with
+    | some v => v
+    | none =>
+      if r.never then false
+      else if r.always then true
+      else decide (r.policy = .enabled)
+
+/-- The statement at full, literal strength about the real function. -/
+def FullStatement : Prop := ∀ r : Row, injectImpl r = literalDecision r
+
+/-- The literal statement is **false** of the real code. Witness 1: a garbage label shadows the annotation (label
+    "yes", annotation "true", policy disabled: literal reading injects, the code does not). -/
+theorem full_statement_witness : ¬ FullStatement := by
+  intro h
+  have := h { hostNet := false, nsIgnored := false, label := .other, ann := .tru,
+              never := false, always := false, policy := .disabled }
+  revert this
+  decide +kernel
+
+/-- Witness 2: an illegal policy value disables injection even for label "true". -/
+theorem full_statement_witness_policy :
+    injectImpl { hostNet := false, nsIgnored := false, label := .tru, ann := .absent,
+                 never := false, always := false, policy := .other } = false ∧
+    literalDecision { hostNet := false, nsIgnored := false, label := .tru, ann := .absent,
+                      never := false, always := false, policy := .other } = true := by
+  decide +kernel
+
+/-- ... and these are the only deviations: on every row with a legal policy whose label is absent, "true" or
+    "false", the real function decides exactly as the statement reads (`..._partial` of `FullStatement`). -/
+theorem full_statement_partial (r : Row) (hp : r.policy ≠ .other)
+    (hl : r.label = .absent ∨ r.label = .tru ∨ r.label = .fls) : injectImpl r = literalDecision r := by
+  have h := forall_rows (p := fun r => (r.policy == .other) || (r.label == .empty) || (r.label == .other) ||
+      (injectImpl r == literalDecision r)) (by decide +kernel) r
+  simp only [Bool.or_eq_true, beq_iff_eq] at h
+  rcases h with ((h | h) | h) | h
+  · exact absurd h hp
+  · rcases hl with hl | hl | hl <;> simp [hl] at h
+  · rcases hl with hl | hl | hl <;> simp [hl] at h
+  · exact h
+
 /-- The concrete model (tied to the real function by the `decide` stream) and the real function's
     table agree through the abstraction: for every concrete input, the model's answer is the
     table entry of its abstract row. -/
